@@ -61,7 +61,13 @@ def run_case(case):
     else:
         sources, cfg, _ = c03.gen_case(sub)
     fmt = cfg["color_format"]
-    res = {"counters": {}, "violations": [], "tags": [fmt, which]}
+    # the outline flavour follows the output file's extension, not the colour format's name: cross them
+    # (OT-SVG formats: .ttf only, per the statement)
+    ext = "default"
+    if "svg" not in fmt and r.random() < 0.3:
+        ext = ".ttf" if fmt.startswith("cff") else ".otf"
+        cfg["output_file"] = "Font" + ext
+    res = {"counters": {}, "violations": [], "tags": [fmt, which] + (["crossed-extension" + ext] if ext != "default" else [])}
     c = res["counters"]
     notdef = False
     if r.random() < 0.3:
